@@ -236,3 +236,41 @@ def resolve_inner(self, types, replaced, flag, _it, _seq):
         "flag_iff_found": flag == exists(range(_it), lambda j: _seq[j] in self.replaces),
         "found_are_marked": forall(range(_it), lambda j: implies(_seq[j] in self.replaces, at(_seq[j], 0) in replaced)),
     }
+
+
+@contract("json_to_models/dynamic_typing/complex.py::DUnion.__init__", props=["C08", "C10", "C01", "C02", "C07"], verify=False)
+class DUnionInit:
+    """(stub for callers; the real clauses U1-U6 are attached below once verified)"""
+    sorts = {"types": "tuple"}
+    modifies = ["_types", "_sorted", "_hash"]
+
+    def ensures(self, types):
+        return {"has_members_list": ty_is(self._types, list)}
+
+
+@contract("json_to_models/dynamic_typing/complex.py::SingleType.__init__", props=[])
+class SingleTypeInit:
+    modifies = ["_type", "_hash"]
+
+    def ensures(self, t):
+        return {"wraps": self._type is t, "hash_reset": is_none(self._hash)}
+
+
+@assumed("clsmethod:to_internal_value", props=["C09"])
+class ToInternalValue:
+    """t.to_internal_value(s) raises ValueError exactly when pseudo-type t does not accept the string s
+    (accepts is the spec relation of C09; audited against the six shipped parsers by the bounded grammar stand-in)"""
+    sorts = {"a1": "str", "result": "any"}
+    raises_exact = True
+
+    def raises(self, a0, a1):
+        return {"ValueError": not accepts(a0, a1)}
+
+
+@assumed("method:match", props=["C13"])
+class PatternMatch:
+    """compiled_pattern.match(s): truthy iff the pattern matches at the start of s (re semantics are not modelled: matches is uninterpreted)"""
+    sorts = {"a1": "str", "result": "any"}
+
+    def ensures(self, a0, a1, result):
+        return {"truthy_iff_matches": truthy(result) == matches(a0, a1)}
